@@ -61,6 +61,102 @@ pub fn build_voronoi(st: &State, mask: Option<&[bool]>) -> Result<Voronoi, Panic
     })
 }
 
+/// Bitwise digest of everything `Voronoi::build` returns for the state (or the panic message).
+pub fn build_digest(st: &State) -> Result<u64, String> {
+    match build_voronoi(st, None) {
+        Err(p) => Err(p.msg),
+        Ok(v) => {
+            let mut h = Fnv::new();
+            for c in v.cells() {
+                h.u64(c.volume().to_bits());
+                h.u64(c.safety_radius().to_bits());
+                for b in vec_bits(c.centroid()) {
+                    h.u64(b);
+                }
+                h.u64(c.face_count() as u64);
+            }
+            for f in v.faces() {
+                h.u64(f.left() as u64);
+                h.u64(f.right().map_or(u64::MAX, |r| r as u64));
+                h.u64(f.area().to_bits());
+                for b in vec_bits(f.centroid()) {
+                    h.u64(b);
+                }
+                for b in vec_bits(f.shift().unwrap_or(DVec3::ZERO)) {
+                    h.u64(b);
+                }
+            }
+            for &i in v.cell_face_connections() {
+                h.u64(i as u64);
+            }
+            Ok(h.finish())
+        }
+    }
+}
+
+/// Call histories as transitions of the state space (every E1 check): the state is built, then - on the same thread,
+/// nothing in between - the library is asked something *else about the same generators*, then the state is built again;
+/// the two builds of the state must be bitwise identical. The interposed calls are the ones that collide with the state
+/// on anything a memo could be keyed by: the same slice under the next lower dimensionality (when the projections stay
+/// distinct), the same positions in reversed order, the same slice under a single-cell mask (direct and integrator
+/// route), the same slice with the first generator moved to the centre of gravity of the others.
+pub fn history_differential(e: &mut Eval, check: &str, st: &State) {
+    let n = st.n();
+    let d0 = build_digest(st);
+    let mut preludes: Vec<(&'static str, Box<dyn Fn() + '_>)> = vec![];
+    if st.dim >= 2 {
+        let lower = st.dim - 1;
+        let key = |g: DVec3| -> Vec<u64> { (0..lower).map(|k| comp(g, k).to_bits()).collect() };
+        let mut keys: Vec<Vec<u64>> = st.gens.iter().map(|g| key(*g)).collect();
+        keys.sort();
+        keys.dedup();
+        if keys.len() == n {
+            preludes.push(("the same slice under the next lower dimensionality", Box::new(move || {
+                let _ = guarded(|| Voronoi::build(&st.gens, st.anchor, st.width, dimensionality(lower), st.periodic));
+            })));
+        }
+    }
+    if n >= 2 {
+        preludes.push(("the same positions in reversed order", Box::new(move || {
+            let mut g = st.gens.clone();
+            g.reverse();
+            let _ = guarded(|| Voronoi::build(&g, st.anchor, st.width, st.dimensionality(), st.periodic));
+        })));
+        preludes.push(("the same slice under a single-cell mask", Box::new(move || {
+            let mask: Vec<bool> = (0..n).map(|i| i == n - 1).collect();
+            let _ = guarded(|| Voronoi::build_partial(&st.gens, &mask, st.anchor, st.width, st.dimensionality(), st.periodic));
+            let _ = guarded(|| VoronoiIntegrator::build(&st.gens, Some(&mask), st.anchor, st.width, st.dimensionality(), st.periodic));
+        })));
+    }
+    if n >= 3 {
+        preludes.push(("the same slice with generator 0 moved", Box::new(move || {
+            let mut g = st.gens.clone();
+            let c = g[1..].iter().fold(DVec3::ZERO, |a, b| a + *b) / (n - 1) as f64;
+            if g[1..].iter().all(|p| (0..st.dim).any(|k| comp(*p, k) != comp(c, k))) {
+                let keep = g[0];
+                g[0] = c;
+                for k in st.dim..3 {
+                    set_comp(&mut g[0], k, comp(keep, k));
+                }
+                let _ = guarded(|| Voronoi::build(&g, st.anchor, st.width, st.dimensionality(), st.periodic));
+            }
+        })));
+    }
+    for (what, p) in preludes {
+        p();
+        e.transitions += 1;
+        let d1 = build_digest(st);
+        if d1 != d0 {
+            e.issue(
+                "result-depends-on-call-history",
+                format!("{}|after: {}", st.id, what),
+                format!("Voronoi::build of the state gives {:?} when called first and {:?} when called right after a build of {}", d0, d1, what),
+                replay_text(check, st, &[]),
+            );
+        }
+    }
+}
+
 pub fn panic_issue(e: &mut Eval, check: &str, st: &State, case: &str, extra: &[(&str, String)], p: &PanicInfo, what: &str) {
     e.issue(
         format!("panic:{}", p.msg.chars().take(70).collect::<String>()),
